@@ -118,6 +118,9 @@ func init() {
 						v = strings.Repeat("C", w)
 					default:
 						v = "A B"
+						if w >= 8 && rng.Intn(2) == 0 {
+							v = "AB  CD" // two blanks in a row inside a value
+						}
 					}
 					vals := tt.Vals(m.Tags[k])
 					m.Tags[k] = tt.New(tt.Marker(m.Tags[k]), setAt(vals, e, v))
@@ -142,6 +145,32 @@ func init() {
 				}
 				if m.Validate() == "ok" {
 					msgs = append(msgs, m)
+				}
+			}
+		}
+		// values with consecutive blanks inside, in every element wide enough, and near-maximal {8200} addenda
+		for _, sn := range sortedSampleNames(samples) {
+			base := samples[sn]
+			for _, k := range sortedKeys(base.Tags) {
+				tt := tagByName[k]
+				for i := range tt.Elems {
+					if w := widths(tt)[i]; w >= 8 && (thorough || (i+len(k))%3 == 0) {
+						m := base.Clone()
+						m.Tags[k] = tt.New(tt.Marker(base.Tags[k]), setAt(tt.Vals(base.Tags[k]), i, "AB  CD"))
+						if m.Validate() == "ok" {
+							msgs = append(msgs, m)
+						}
+					}
+				}
+			}
+			if p, has := base.Tags["UnstructuredAddenda"]; has {
+				tt := tagByName["UnstructuredAddenda"]
+				for _, al := range []int{8994, 8995, 9000, 9500, 9999} {
+					m := base.Clone()
+					m.Tags["UnstructuredAddenda"] = tt.New(tt.Marker(p), []string{fmt.Sprintf("%04d", al), strings.Repeat("A", al)})
+					if m.Validate() == "ok" {
+						msgs = append(msgs, m)
+					}
 				}
 			}
 		}
@@ -189,7 +218,13 @@ func init() {
 				o.Case("prop:valid-writes", "same", args...)
 				text := string(unhexs(res[3:]))
 				// C07 shape facts
-				o.Case("prop:text-shape", annotate(textShape(text, l.nl, m), note), args...)
+				if probs := textShape(text, l.nl, m, l.v); len(probs) == 0 {
+					o.Case("prop:text-shape", "same", args...)
+				} else {
+					for pi, pr := range probs {
+						o.Case("prop:text-shape", annotate(pr, note), append(append([]string{}, args...), fmt.Sprint("problem ", pi))...)
+					}
+				}
 				// C10: whatever validation accepted, the reader accepts back
 				back, rres := readText(text, m.Opts)
 				if back == nil {
@@ -415,22 +450,24 @@ func firstDiff(a, b *Msg) string {
 // textShape checks the C07 framing facts of an emitted text: one segment per present tag, own marker
 // first, markers strictly ascending, separated and terminated by exactly nl, no { } CR LF inside a
 // segment after its marker.
-func textShape(text, nl string, m *Msg) string {
+// textShape lists every way in which the text is not a well-formed rendering of the message (empty = well formed)
+func textShape(text, nl string, m *Msg, variable bool) []string {
+	var problems []string
 	if !strings.HasSuffix(text, nl) {
-		return "differ:no-trailing-separator"
+		return []string{"differ:no-trailing-separator"}
 	}
 	body := strings.TrimSuffix(text, nl)
 	var segs []string
 	if nl == "" {
 		segs = splitSegments(body)
 		if strings.Join(segs, "") != body {
-			return "differ:text-before-first-marker"
+			problems = append(problems, "differ:text-before-first-marker")
 		}
 	} else {
 		segs = strings.Split(body, nl)
 	}
 	if len(segs) != len(m.Tags) {
-		return fmt.Sprintf("differ:%d segments for %d tags", len(segs), len(m.Tags))
+		problems = append(problems, fmt.Sprintf("differ:%d segments for %d tags", len(segs), len(m.Tags)))
 	}
 	prev := ""
 	want := map[string]bool{}
@@ -439,17 +476,56 @@ func textShape(text, nl string, m *Msg) string {
 	}
 	for _, s := range segs {
 		if len(s) < 6 || !want[s[:6]] {
-			return "differ:segment-without-own-marker " + short(s)
+			problems = append(problems, "differ:segment-without-own-marker "+short(s))
+			continue
 		}
 		if s[:6] <= prev {
-			return "differ:markers-not-ascending"
+			problems = append(problems, "differ:markers-not-ascending")
 		}
 		prev = s[:6]
 		if strings.ContainsAny(s[6:], "{}\r\n") {
-			return "differ:framing-character-in-segment " + short(s)
+			problems = append(problems, "differ:framing-character-in-segment "+short(s))
+		}
+		// fixed layout: a tag's segment length is constant ({8200}: marker + 4 + the declared addenda length)
+		if !variable {
+			if s[:6] == "{8200}" {
+				var al int
+				if len(s) >= 10 {
+					fmt.Sscanf(s[6:10], "%d", &al)
+				}
+				if len(s) != 10+al {
+					problems = append(problems, fmt.Sprintf("differ:{8200} declares %d addenda characters but the segment holds %d", al, len(s)-10))
+				}
+			} else if want := fixedSegmentLen(s[:6]); want > 0 && len(s) != want {
+				problems = append(problems, fmt.Sprintf("differ:fixed-width segment %s has length %d, other instances of the tag have %d", s[:6], len(s), want))
+			}
 		}
 	}
-	return "same"
+	return problems
+}
+
+var fixedLenCache = map[string]int{}
+
+// fixedSegmentLen: the length of the tag's fixed-layout segment for a reference value (all elements empty
+// except what Format itself supplies); 0 when the tag has no fixed layout of its own
+func fixedSegmentLen(marker string) int {
+	if n, ok := fixedLenCache[marker]; ok {
+		return n
+	}
+	n := 0
+	for _, tt := range tagTypes {
+		if tt.OwnMarker() == marker {
+			vals := make([]string, len(tt.Elems))
+			for i := range vals {
+				vals[i] = "A"
+			}
+			if r := tt.Format(tt.New(marker, vals), false); strings.HasPrefix(r, "ok:") {
+				n = len(unhexs(r[3:]))
+			}
+		}
+	}
+	fixedLenCache[marker] = n
+	return n
 }
 
 // errorPositions reads the joined segments and compares the reader's (line, record) list with the
